@@ -35,16 +35,16 @@ func fromSyncMap(v ssa.Value, fn *ssa.Function) (bool, string) {
 	case *ssa.Extract:
 		if call, ok := x.Tuple.(*ssa.Call); ok {
 			if cal := call.Call.StaticCallee(); cal != nil && cal.Signature.Recv() != nil && isNamedType(cal.Signature.Recv().Type(), "sync", "Map") {
-				return true, "sync.Map." + cal.Name()
+				return true, "sync.Map." + fname(cal)
 			}
 		}
 	case *ssa.Call:
 		if cal := x.Call.StaticCallee(); cal != nil && cal.Signature.Recv() != nil {
 			if isNamedType(cal.Signature.Recv().Type(), "sync", "Map") {
-				return true, "sync.Map." + cal.Name()
+				return true, "sync.Map." + fname(cal)
 			}
 			if isNamedType(cal.Signature.Recv().Type(), "sync", "Pool") {
-				return true, "sync.Pool." + cal.Name()
+				return true, "sync.Pool." + fname(cal)
 			}
 		}
 	case *ssa.Parameter:
@@ -70,7 +70,7 @@ func fromSyncMap(v ssa.Value, fn *ssa.Function) (bool, string) {
 				if refs := mc.(*ssa.MakeClosure).Referrers(); refs != nil {
 					for _, ref := range *refs {
 						if call, ok := ref.(*ssa.Call); ok {
-							if cal := call.Call.StaticCallee(); cal != nil && cal.Name() == "Range" && cal.Signature.Recv() != nil && isNamedType(cal.Signature.Recv().Type(), "sync", "Map") {
+							if cal := call.Call.StaticCallee(); cal != nil && fname(cal) == "Range" && cal.Signature.Recv() != nil && isNamedType(cal.Signature.Recv().Type(), "sync", "Map") {
 								return true, "sync.Map.Range callback"
 							}
 						}
@@ -140,8 +140,8 @@ func ruleMapDelegates(c *Ctx, r *R) {
 		}
 		call := calls[0]
 		cal := call.Call.StaticCallee()
-		good := cal.Name() == n
-		why := "calls sync.Map." + cal.Name()
+		good := fname(cal) == n
+		why := "calls sync.Map." + fname(cal)
 		// arguments: the method's own parameters (after the receiver), in order, through MakeInterface
 		args := call.Call.Args[1:]
 		if n == "Range" {
@@ -569,7 +569,7 @@ func ruleLazyOnce(c *Ctx, r *R) {
 				if mc := makeClosureOf(g); mc != nil {
 					for _, ref := range *mc.(*ssa.MakeClosure).Referrers() {
 						if oc, ok := ref.(*ssa.Call); ok {
-							if cal := oc.Call.StaticCallee(); cal != nil && cal.Name() == "Do" && isNamedType(cal.Signature.Recv().Type(), "sync", "Once") {
+							if cal := oc.Call.StaticCallee(); cal != nil && fname(cal) == "Do" && isNamedType(cal.Signature.Recv().Type(), "sync", "Once") {
 								inOnce = true
 							}
 						}
